@@ -103,6 +103,7 @@ fn main() {
     let mut nshards = 1u64;
     let mut out: Option<String> = None;
     let mut scale = 1.0f64;
+    let mut budget: Option<f64> = std::env::var("PBMON_BUDGET_S").ok().and_then(|s| s.parse().ok());
     let mut rest: Vec<String> = Vec::new();
     let mut i = 3;
     while i < args.len() {
@@ -134,6 +135,11 @@ fn main() {
                 scale = args[i + 1].parse().unwrap();
                 i += 2;
             }
+            "--budget" => {
+                // (argv, not environment: cargo-miri replays the build-time environment at run time)
+                budget = args[i + 1].parse().ok();
+                i += 2;
+            }
             _ => {
                 rest.push(args[i].clone());
                 i += 1;
@@ -159,7 +165,7 @@ fn main() {
         rep: Report::default(),
         only: if replay { Some(rest.clone()) } else { None },
         t0: std::time::Instant::now(),
-        budget_s: std::env::var("PBMON_BUDGET_S").ok().and_then(|s| s.parse().ok()),
+        budget_s: budget,
     };
     ctx.rep.verbose = replay;
 
